@@ -67,7 +67,8 @@ class PrinterCallGraph(AbstractPrinter):  # pylint: disable=too-few-public-metho
         for destination_sub, source_subs in graph.items():
             destination_sub = html.escape(destination_sub, quote=True)
             dot_output += f"{destination_sub}[label={destination_sub}];\n"
-            for source_sub in source_subs:
+            # sorted: the order of a set of strings changes with the hash seed of the interpreter
+            for source_sub in sorted(source_subs):
                 source_sub = html.escape(source_sub, quote=True)
                 graph_edges += f"{source_sub} -> {destination_sub};\n"
         dot_output += graph_edges
